@@ -43,7 +43,7 @@ def run(ctx):
         if rp.get("config"):
             cfgs = [tuple(rp["config"])]
     else:
-        for i in range(ctx.n(50, 900)):
+        for i in range(ctx.n(25, 250)):
             progs.append(E.gen_prog_ext(ctx.rng, na_max=5, nops_max=8) if ctx.rng.random() < 0.6 else E.gen_prog(ctx.rng, na_max=5, nops_max=10))
     enc = [E.encode(p) for p in progs]
     ctx.cov["rule"] = ("generated S4U programs (2-5 actors; mutex/semaphore/condvar/barrier/mailbox patterns, sleeps, execs, yields, daemons, "
